@@ -2308,8 +2308,8 @@ func (m *SnapManager) doLinkSnap(t *state.Task, _ *tomb.Tomb) (err error) {
 	t.Set("old-cohort-key", oldCohortKey)
 	t.Set("old-last-refresh-time", oldLastRefreshTime)
 	t.Set("old-revs-before-cand", oldRevsBeforeCand)
+	t.Set("old-revert-status", snapst.RevertStatus)
 	if snapsup.Revert {
-		t.Set("old-revert-status", snapst.RevertStatus)
 		switch snapsup.RevertStatus {
 		case NotBlocked:
 			if snapst.RevertStatus == nil {
@@ -2794,13 +2794,14 @@ func (m *SnapManager) undoLinkSnap(t *state.Task, _ *tomb.Tomb) error {
 	snapst.LastRefreshTime = oldLastRefreshTime
 	snapst.CohortKey = oldCohortKey
 
-	if isRevert {
-		var oldRevertStatus map[int]RevertStatus
-		err := t.Get("old-revert-status", &oldRevertStatus)
-		if err != nil && !errors.Is(err, state.ErrNoState) {
-			return err
-		}
-		// may be nil if not set (e.g. created by old snapd)
+	var oldRevertStatus map[int]RevertStatus
+	err = t.Get("old-revert-status", &oldRevertStatus)
+	if err != nil && !errors.Is(err, state.ErrNoState) {
+		return err
+	}
+	// for a revert it may be nil if not set (e.g. created by old snapd);
+	// a refresh done by an older snapd did not record it: keep what is there
+	if isRevert || err == nil {
 		snapst.RevertStatus = oldRevertStatus
 	}
 
